@@ -66,6 +66,7 @@ def modules():
         import pyyeti.cyclecount as cc_mod
 
         _mods = (srs_mod, fdepsd_mod, cc_mod)
+        sut.reset_module_state()  # records the import-time state of the package
     return _mods
 
 
@@ -315,17 +316,21 @@ def _describe(r):
 
 def run(ch, tr, st):
     srs_mod, fdepsd_mod, cc_mod = modules()
-    target, build, par, desc, est_lines, base, freq = gen_case(ch)
-    cfg = gen_sched_cfg(ch, target)
-    cfg["step_cap"] = est_lines * 4
-    st.rendered["call"] = desc
+    cases = [gen_case(ch)]
+    cfg = gen_sched_cfg(ch, cases[0][0])
+    # a parent process may call the functions several times: module globals and
+    # anything else that outlives a call are shared by the calls of one run
+    extra = ch.weighted([6, 2, 1], "extra_calls")
+    for _ in range(extra):
+        cases.append(gen_case(ch))
+    cfg["step_cap"] = 4 * sum(c[4] for c in cases)
+    st.rendered["call"] = cases[0][3] if len(cases) == 1 else [c[3] for c in cases]
     st.rendered["sched_cfg"] = {k: v for k, v in cfg.items()}
-    tr.ev("case", target, base, np.asarray(freq), sorted((k, str(v)) for k, v in desc.items()))
-
-    ser = _call(target, build, "no")
+    if len(cases) > 1:
+        st.fault("several_calls_one_parent")
 
     traced = {srs_mod.__file__, fdepsd_mod.__file__}
-    if cfg["trace_cyclecount"]:
+    if cfg["trace_cyclecount"] and any(c[0] == "fdepsd" for c in cases):
         traced.add(cc_mod.__file__)
     swap = [m for n, m in sorted(sys.modules.items()) if (n == "pyyeti" or n.startswith("pyyeti.")) and m is not None]
     stub_names = {("pyyeti.srs", "mp"), ("pyyeti.fdepsd", "mp")}
@@ -335,9 +340,25 @@ def run(ch, tr, st):
     real = (srs_mod.mp, fdepsd_mod.mp)
     srs_mod.mp = simmp
     fdepsd_mod.mp = simmp
+    results = []
     try:
         try:
-            pr = _call(target, build, par)
+            for ci, (target, build, par, desc, est_lines, base, freq) in enumerate(cases):
+                tr.ev("case", ci, target, base, np.asarray(freq), sorted((k, str(v)) for k, v in desc.items()))
+                ser = _call(target, build, "no")
+                p0 = len(sched.pools)
+                c0 = len(sched.completion_order)
+                pr = _call(target, build, par)
+                outcome = compare(target, ser, pr, target if ci == 0 else f"{target}(call {ci + 1} of one parent)")
+                st.probe("outcome_" + outcome)
+                results.append((target, par, ser, p0, c0))
+                _account(st, sched, cfg, par, p0, c0)
+                if ser[0] == "ok":
+                    for k, v in _flatten(target, ser[1]).items():
+                        if v.dtype != object:
+                            tr.ev("out", k, v)
+                else:
+                    tr.ev("exc", type(ser[1]).__name__)
         finally:
             sched.shutdown()
     finally:
@@ -346,45 +367,43 @@ def run(ch, tr, st):
     for (mn, k), v in before.items():
         if vars(sys.modules[mn]).get(k) is not v:
             raise HarnessError(f"module global {mn}.{k} leaked out of a simulated worker")
-
     st.steps = sched.decisions
     st.probe("line_events", sched.line_events)
-    pool_used = bool(sched.pools)
-    if not pool_used:
+    st.distinct["schedule_digests"] = tr.shape_digest()
+
+
+def _account(st, sched, cfg, par, p0, c0):
+    """Fault/coverage accounting for the pools created by one call."""
+    pools = sched.pools[p0:]
+    if not pools:
         st.probe("pool_not_used")
         if par == "auto":
             st.probe("auto_chose_serial")
-    else:
-        if par == "auto":
-            st.fault("auto_chose_parallel")
-        nw = len(sched.pools[0].workers)
-        ntasks = sum(j.n for p in sched.pools for j in p.jobs)
-        ran = sorted({w for w in sched.assignment.values()})
-        st.fault("workers_1" if nw == 1 else "workers_2_4" if nw <= 4 else "workers_5_16" if nw <= 16 else "workers_gt16")
-        if nw > ntasks:
-            st.fault("workers_gt_tasks")
-        if cfg["cpu_count"] == 1:
-            st.fault("cpu_count_1")
-        order = [i for (_, _, i) in sched.completion_order]
-        if order == sorted(order, reverse=True) and len(order) > 1:
-            st.fault("completion_order_reversed")
-        elif order != sorted(order):
-            st.fault("completion_order_permuted")
-        if len(ran) == 1 and nw > 1 and ntasks > 1:
-            st.fault("one_worker_takes_all")
-        st.nontrivial = len(ran) >= 2 and (order != sorted(order) or sched.max_mid_task >= 2)
-        st.distinct["completion_orders"] = ",".join(map(str, order))
-        st.distinct["assignments"] = ",".join(f"{k[1]}:{v}" for k, v in sorted(sched.assignment.items()))
-    st.distinct["schedule_digests"] = tr.shape_digest()
-
-    outcome = compare(target, ser, pr, target)
-    st.probe("outcome_" + outcome)
-    if ser[0] == "ok":
-        for k, v in _flatten(target, ser[1]).items():
-            if v.dtype != object:
-                tr.ev("out", k, v)
-    else:
-        tr.ev("exc", type(ser[1]).__name__)
+        return
+    if par == "auto":
+        st.fault("auto_chose_parallel")
+    nw = len(pools[0].workers)
+    ntasks = sum(j.n for p in pools for j in p.jobs)
+    pids = {p.pid for p in pools}
+    assign = {k: v for k, v in sched.assignment.items() if True}
+    ran = sorted({w.id for p in pools for w in p.workers if w.tasks_done})
+    st.fault("workers_1" if nw == 1 else "workers_2_4" if nw <= 4 else "workers_5_16" if nw <= 16 else "workers_gt16")
+    if nw > ntasks:
+        st.fault("workers_gt_tasks")
+    if cfg["cpu_count"] == 1:
+        st.fault("cpu_count_1")
+    order = [i for (pid, _, i) in sched.completion_order[c0:] if pid in pids]
+    if order == sorted(order, reverse=True) and len(order) > 1:
+        st.fault("completion_order_reversed")
+    elif order != sorted(order):
+        st.fault("completion_order_permuted")
+    if len(ran) == 1 and nw > 1 and ntasks > 1:
+        st.fault("one_worker_takes_all")
+    mid = max((getattr(p, "max_mid_task", 0) for p in pools), default=0)
+    if len(ran) >= 2 and (order != sorted(order) or sched.max_mid_task >= 2):
+        st.nontrivial = True
+    st.distinct["completion_orders"] = st.distinct.get("completion_orders", "") + "|" + ",".join(map(str, order))
+    st.distinct["assignments"] = st.distinct.get("assignments", "") + "|" + ",".join(f"{w.id}:{w.tasks_done}" for p in pools for w in p.workers if w.tasks_done)
 
 
 # ------------------------------------------------- real-pool fidelity cross-check
@@ -421,6 +440,7 @@ def post_search(tier, verif_seed):
         if time.time() - t0 > (30 if tier == "quick" else 300):
             break
         ch = core.Choices(seed=core.run_seed(verif_seed, "C09-real", i))
+        sut.reset_module_state()
         status, detail = real_pool_check(ch)
         res[status] += 1
         if status == "mismatch":
@@ -441,6 +461,8 @@ def replay_nondeterministic(doc):
     bad = 0
     for _ in range(50):
         ch = core.Choices(replay=doc["choices"])
+        modules()
+        sut.reset_module_state()
         status, detail = real_pool_check(ch)
         bad += status == "mismatch"
     print(f"real-pool replay: {bad}/50 executions differ from serial")
@@ -484,5 +506,5 @@ ASSUMPTIONS = [
 EXPECTED_FAULTS = [
     "workers_1", "workers_2_4", "workers_5_16", "workers_gt_tasks", "late_worker_start", "worker_never_started", "stall",
     "preempt_in_task", "two_workers_mid_task", "completion_order_reversed", "completion_order_permuted", "one_worker_takes_all",
-    "cpu_count_1", "auto_chose_parallel", "parent_preempted",
+    "cpu_count_1", "auto_chose_parallel", "parent_preempted", "several_calls_one_parent",
 ]
